@@ -13,9 +13,7 @@ package offset
 //@   ghost saved bool = false
 //@   ghost synced bool = false
 //@   ensures result == nil ==> created && saved && synced
-//@   ghost gtmp seq = ""
 //@   callee Create(name) (f, err)
-//@     requires name == gtmp
 //@     pure
 //@     set created := err == nil
 //@   callee Save(w) (err)
@@ -28,7 +26,6 @@ package offset
 //@     set synced := err == nil
 //@   callee getTmpPath() (r)
 //@     pure
-//@     set gtmp := r
 //@   callee Close()
 //@     pure
 
